@@ -33,7 +33,8 @@ CLAIMED.update({
              'compared with a list-comprehension reference: values, exception objects, (x, y) pairing, order, exactly-once '
              'calls. Covers capacity 1-3 so that the hand-off queue wraps. Bounded-exhaustive, n <= 4.',
         note='thread executor explored; for the process executor fifo_stream only sees futures and every completion order '
-             'is enumerated, the ProcessPoolExecutor wiring itself is not explored',
+             'is enumerated; the ProcessPoolExecutor wiring is bound to that model by a free-running twin on real worker '
+             'processes (54 settings incl. inverted completion order), not explored',
         design_ref='DESIGN.md 4 C01'),
     'C08': dict(
         engine='schedex',
@@ -41,7 +42,8 @@ CLAIMED.update({
         text='The look-ahead (pulled - received) and running-call counters of instrumented source / consumer / worker are '
              'checked against capacity+3, buffer n+2 and concurrency at EVERY scheduling point of every schedule within '
              'the delay bound (d=1 quick, d=2/3 thorough; environment completion choices count as deviations), for streams '
-             'longer than twice the capacity. The maxima actually reached are reported (they reach the bounds, so the '
+             'longer than twice the capacity, and for a second round on the same Stream right after a round that ended '
+             'early (left-over calls count). The maxima actually reached are reported (they reach the bounds, so the '
              'harness is not vacuous).',
         note='bounds taken from the property statement; counters are sampled at scheduling points (line granularity of the '
              'traced library functions)',
@@ -91,16 +93,18 @@ CLAIMED.update({
              'abandoned stream. len(ledger) <= capacity is evaluated at EVERY scheduling point of every schedule with <= d '
              'deviations (d=2 on the capacity-1 core, 1 elsewhere; thorough +1). End oracles: immediate ServerBacklogFull '
              'with backpressure, bounded enqueue wait on the virtual clock (timers in deadline order), backlog 0 when idle. '
-             'A separate harness lets deadlines expire at any point (timers=all).',
-        note='elapsed-time assertions only in the harness where timers fire in deadline order; AsyncServer not explored here',
+             'A separate harness lets deadlines expire at any point (timers=all). Slow-worker configurations (the environment '
+             'holds calls for 1-1.5 virtual s) make waiters wake up, lose the slot and wait again. The same races on AsyncServer.',
+        note='elapsed-time assertions only in the harnesses where timers fire in deadline order',
         design_ref='DESIGN.md 4 C06'),
     'C07': dict(
         engine='schedex',
         technique='stateless model checking with timer deviations: deadline expiry placed at every scheduling point of the gather thread',
         text='A call with a finite virtual deadline races the delivery of its own (gated) result; with timers=all the '
              'explorer fires the deadline at every scheduling point (one deviation each, d=2 on the core harness), next to '
-             'an unbounded caller and a later request; plus a stream consumer closing after k outputs. Oracle: abandoned '
-             'call times out or gets its own result, all others correct, gather thread alive until shutdown, exit returns.',
+             'an unbounded caller and a later request, also on a saturated (capacity 1) server with a waiter; plus a stream '
+             'consumer closing after k outputs; plus the same abandonments on AsyncServer. Oracle: abandoned '
+             'call times out or gets its own result, all others correct and not stalled, gather thread alive until shutdown, exit returns.',
         note='slowness is bounded: a timer more than 50 virtual seconds away never fires early, so unbounded deadlines stay unbounded',
         design_ref='DESIGN.md 4 C07'),
     'C17': dict(
@@ -109,7 +113,10 @@ CLAIMED.update({
         text='Real IterableQueue over queue.Queue with 1-2 suppliers x 1-3 consumers x bounded/unbounded queue, two rounds with '
              'renew(); put_end/__next__/renew traced line by line; all schedules with <= 2 deviations (3 thorough). Oracle '
              'per round: multiset received == put, no None delivered, every consumer ends, renew succeeds, exactly one end '
-             'marker left. ResponsiveQueue: blocked get/put raise StopRequested within the wait interval for every stop moment.',
+             'marker left. iq_eager: long-lived consumers that start over while renew() runs. iq_seq: EVERY legal single-threaded '
+             'sequence of put / put_end / next / renew (<= 9 ops with 1 supplier, <= 7 with 2; thorough 11 / 9) against a '
+             'reference model, each completed by a drain, a renew and a further round. ResponsiveQueue: blocked get/put raise '
+             'StopRequested within the wait interval for every stop moment.',
         note='thread queues, plus the token queues in simulated multiprocessing queues (harness iq_mp, feeder-thread asynchrony '
              'modelled); rounds are separated by renew() as the property says (see DESIGN 0.7 for the wait_for_renew mode)',
         design_ref='DESIGN.md 4 C17'),
@@ -128,8 +135,9 @@ CLAIMED.update({
     'C03': dict(
         engine='seqex',
         technique='bounded-exhaustive enumeration of operator programs x inputs against a reference interpreter (explicit enumeration, no sampling)',
-        text='Every type-correct operator sequence up to length 3 (thorough 4) over 33 operator instances with boundary '
-             'parameters x 6 inputs (empty, singleton, 0..4, exception objects, nested lists) x 3 consumption modes runs the '
+        text='Every type-correct operator sequence up to length 3 (thorough 4) over 35 operator instances with boundary '
+             'parameters and documented parameter forms x 8 inputs (empty, singleton, 0..4, exception objects, nested lists, None '
+             'elements, opaque elements whose == is element-wise) x 3 consumption modes runs the '
              'real Stream and a lazy generator reference; shuffle is a permutation for 3 seeds; construction pulls nothing '
              'and k outputs pull at most k + sum(slack) source elements for all chains of one-to-one operators up to length 3.',
         note='pipelines with buffer/parmap run under the controlled scheduler with the default schedule (a hang is a deadlock '
@@ -152,7 +160,8 @@ CLAIMED.update({
              'event loop, compared with the real sync fifo_stream on the same inputs and with the reference list. '
              'AsyncServer.call/stream is explored with the gather/worker threads under the controlled scheduler against the '
              'same per-request reference that Server is checked against in C02/C04 (incl. saturated and backpressure cases). '
-             'The thread/loop hybrids ParmapperAsync and AsyncParmapper are explored under the scheduler (n=3, d<=1/2).',
+             'The thread/loop hybrids ParmapperAsync and AsyncParmapper are explored under the scheduler (n=3, d<=1/2). '
+             'SyncIter / AsyncIter / AsyncStream.buffer carry opaque elements (element-wise ==) through untouched.',
         note='inside one event loop the ready queue is FIFO and deterministic; the enumerated durations are the only source of '
              'completion-order nondeterminism there.',
         design_ref='DESIGN.md 4 C16'),
@@ -167,7 +176,8 @@ CLAIMED.update({
              'preprocess rejections, a second competing worker, an in-worker thread pool, and a 14-request run with gated '
              'call() that fills the collector buffer (batch_size+10). Oracle: well-formed batches of genuine inputs, every '
              'accepted request in exactly one batch, own errors for rejected ones, one correct output per request, batch '
-             'released no later than first element + wait (exact on the virtual clock). Harness collector_full opens the gate at '
+             'released no later than first element + wait (exact on the virtual clock; the end marker arrives after an '
+             'environment-chosen pause of its own, so the last partial batch cannot count on it). Harness collector_full opens the gate at '
              'the moment the collector buffer becomes full and explores d<=2 on the collector (found the lost wake-up).',
         note='thread queues; call() takes no virtual time in the timing oracle',
         design_ref='DESIGN.md 4 C09'),
@@ -178,9 +188,10 @@ CLAIMED.update({
              'fails in __init__ -> __enter__ raises that error and no thread survives; after workloads (successes, failure, '
              'timed-out call, abandoned stream) exit, re-enter, serve, exit: every worker and helper thread gone each time. '
              'The same with ProcessServlets whose worker processes are simulated processes behind pickling pipes with a tiny '
-             'byte capacity (abandoned inputs exceed the pipe).',
-        note='process side is a model of multiprocessing (pipes, queues, Popen) validated by the real-process twins of C12/C20; '
-             'a stream generator that is kept alive beyond the server is outside this check',
+             'byte capacity (abandoned inputs exceed the pipe; two competing workers per stage), and with AsyncServer. Also: '
+             'three workers with the last one failing; a stream abandoned by break and closed only after the exit; requests of '
+             'an abandoned stream still in flight at exit (batching worker); the ledger must be empty at the next enter.',
+        note='process side is a model of multiprocessing (pipes, queues, Popen) validated by the real-process twins of C12/C20',
         design_ref='DESIGN.md 4 C11'),
     'C12': dict(
         engine='schedex + simproc',
@@ -190,27 +201,35 @@ CLAIMED.update({
              'process boundary: the same plus SIGKILL/SIGTERM at EVERY scheduling point of the child (free crash choice per '
              'point) x first accessor. Oracle: every accessor returns, values/exceptions/exit codes agree, traceback text '
              'kept, a kill surfaces as OSError and completes wait/as_completed; also terminate() by the parent right after '
-             'start(). Twins: 5 real children incl. real SIGKILL/SIGTERM.',
+             'start(), and a refused second start() that must leave the recorded outcome as it was. Twins: 5 real children '
+             'incl. real SIGKILL/SIGTERM.',
         note='crash granularity = scheduling points of the traced child code and blocking operations',
         design_ref='DESIGN.md 4 C12'),
     'C13': dict(
-        engine='histex',
-        technique='explicit-state breadth-first search over operation histories, every transition executed on a real manager server and real client processes',
-        text='BFS over histories of {pickle, unpickle once, drop, store in / take from / clear a hosted list, spawn a child with '
-             'the proxy as argument, agent exits} across driver + 2 agent processes for a managed list, a shared-memory '
+        engine='histex + schedex',
+        technique='explicit-state breadth-first search over operation histories, every transition executed on a real manager server and real client processes; delay-bounded schedule exploration of the real Server object for the races between its handler threads',
+        text='BFS over histories of {pickle, unpickle once, drop, store in / take from / clear a hosted list, drop the container '
+             'while it holds proxies, another managed() proxy of the same value, spawn a child with the proxy as argument (kept or '
+             'given away), agent exits} across driver + 2 agent processes for a managed list, a shared-memory '
              'MemoryBlock and a managed() return value; canonical state = holder multiset of the reference model (counts '
              'capped at 2); depth 5 (thorough 7). After every transition: gc in all processes incl. the server, then '
-             'debug_info refcount == model, every live proxy usable, /dev/shm block exists iff held; finally nothing hosted.',
-        note='real processes, synchronous RPCs (no scheduler nondeterminism); 6 independent server groups in parallel',
+             'debug_info refcount == model, every live proxy usable, /dev/shm block exists iff held; finally nothing hosted; when '
+             'nothing refers to the value it must be gone before the client sends its next request; a history that makes no '
+             'progress for 60 s is a violation. server_races: the real manager Server object (never serving a socket) with '
+             'its create / incref / decref called from 2-3 scheduled threads: dropping the last proxy vs hosting the same value '
+             'again, all schedules with <= 2 deviations (thorough 3).',
+        note='histories: real processes, synchronous RPCs (no scheduler nondeterminism), 6 independent server groups in parallel',
         design_ref='DESIGN.md 4 C13'),
     'C14': dict(
         engine='histex',
         technique='bounded-exhaustive enumeration of operation sequences x issuers against a local reference object, executed on a real manager server',
         text='All operation sequences to depth 2 (3 for Namespace, Value, custom class, empty list; thorough: depth 3 '
-             'everywhere) over list (30 ops), dict (20), Namespace (8), Value (3) and a registered custom class (raises a '
-             'custom exception, returns managed_list) x issuer vectors over {driver thread 1, driver thread 2, agent process}. '
+             'everywhere, 4 with one value per operation) over list (32 ops incl. in-place operators and iteration), dict (21), '
+             'Namespace (8), Value (3) and a registered custom class (raises a custom exception, returns managed_list, calls a '
+             'nested proxy that raises) x issuer vectors over {driver thread 1, driver thread 2, agent process}. '
              'Each step compared with the same call on a local object: value, or exception type/args + remote traceback; '
-             'final state compared through the driver proxy and the agent proxy.',
+             'final state compared through the driver proxy and the agent proxy. Two fixed scenarios on real processes: a '
+             'manager with its own authkey and a nested proxy; a hosted class that calls managed() in its constructor.',
         note='argument alphabet {0, "a", (1,[2])}; dict views have nothing to round-trip (may raise or return their content)',
         design_ref='DESIGN.md 4 C14'),
     'C18': dict(
@@ -231,7 +250,9 @@ CLAIMED.update({
              'pickling pipes with capacity 1 record / 2 records / 64 KiB, multiprocessing.Queue with per-process feeder threads '
              'joined at process exit, per-process logging hierarchies. N in {0,1,2,3,5} records, target returns / raises / '
              'sys.exit(2). Oracle: parent handler got exactly the emitted records >= its level, once, in order; join/result '
-             'return; exit code; no thread left after finalization. Twins: real children with 4 / 300x100 B / 50x2 kB records.',
+             'return; exit code; no thread left after finalization; a slow parent handler; a 1500-record burst; a child that is '
+             'silent for 1-3 virtual s and then logs and exits at once (also with timer deviations, against polling readers). '
+             'Twins: real children with 4 / 300x100 B / 50x2 kB records.',
         note='the boundary is a model of CPython multiprocessing; it predicted both real failures (212 of 300 records; hang) '
              'on the unfixed tree, confirmed by the real twins',
         design_ref='DESIGN.md 4 C20'),
